@@ -70,3 +70,15 @@ package util
 //@ func (Uint160).StringBE
 //@ func (Uint256).StringLE
 //@ func (Uint160).StringLE
+
+// decoding a fixed-size integer reads its bytes and leaves the reader usable (C17 safety sweep)
+//@ prop C17,C18
+//@ import io github.com/nspcc-dev/neo-go/pkg/io
+//@ func (*Uint256).DecodeBinary
+//@ requires u != nil && io.validR(r)
+//@ modifies *u, r.Err, r.r.pos
+//@ ensures[reader] io.validR(r)
+//@ func (*Uint160).DecodeBinary
+//@ requires u != nil && io.validR(br)
+//@ modifies *u, br.Err, br.r.pos
+//@ ensures[reader] io.validR(br)
